@@ -1,236 +1,355 @@
-"""C14: Script::deploy_to — SC1..SC4."""
+"""C14: Script::deploy_to — SC1..SC4.  Private helpers (commands, deploy_one, parse, parse_data, or whatever they are
+called after a refactoring) are physically inlined into deploy_to; nothing here depends on their names."""
 from core import *
 from model import *
 import gc_rules as G
 
-TABLE = {"ADD": ("add", [("parse", 0)]),
-         "BIND": ("bind", [("parse", 0), ("parse", 1), ("from_str", 2)]),
-         "PUT": ("put", [("parse", 0), ("parse_data", 1)])}
+# command -> (graph call, [(conversion kind, text argument position)])
+TABLE = {"ADD": ("add", [("id", 0)]),
+         "BIND": ("bind", [("id", 0), ("id", 1), ("label", 2)]),
+         "PUT": ("put", [("id", 0), ("data", 1)])}
 
 
-def script_bodies(F):
-    root = F.fn("Script", "deploy_to")
-    out = []
-    seen = set()
-    st = [root.path] if root else []
-    while st:
-        p = st.pop()
-        if p in seen:
-            continue
-        seen.add(p)
-        b = F.bodies.get(p)
-        if b is None:
-            continue
-        out.append(b)
-        for site, t in b.calls():
-            c = t["callee"]
-            if c.get("local") and c.get("path") in F.bodies and F.bodies[c["path"]].self_adt == "Script":
-                st.append(c["path"])
-        for cb in F.all_bodies():
-            if cb.kind == "Closure" and cb.parent == p:
-                st.append(cb.path)
-            # static initialisers nested in the function (LazyLock closures)
-            if cb.kind == "Closure" and cb.path.startswith(p + "::") and cb.path not in seen:
-                st.append(cb.path)
-    return root, out
+class SCtx:
+    pass
 
 
-def positional(e):
-    """argument position an expression was taken from: first()/get(k)/[k] of the argument vector"""
+_C = {}
+
+
+def sctx(F):
+    if id(F) in _C:
+        return _C[id(F)]
+    c = SCtx()
+    c.root = F.fn("Script", "deploy_to")
+    c.raw = []
+    c.muts = []
+    if c.root is not None:
+        c.raw = Collector(F, stop_names=G.api_names(F)).collect(c.root)
+        for e in c.raw:
+            if e.kind == "call" and e.callee.get("local"):
+                cb = F.bodies.get(e.path)
+                if cb is not None and cb.self_adt == "Sodg" and cb.arg_count >= 1 and cb.locals[1]["ty"].startswith("&mut"):
+                    c.muts.append(e)
+    _C[id(F)] = c
+    return c
+
+
+def positions(e):
+    """text-argument positions an expression is taken from: first()/get(k)/[k] of the argument vector"""
+    out = set()
     for x in walk(e):
         if x[0] == "call":
             n = x[1].split("::")[-1]
-            if n == "first":
-                return 0, x[2][0]
-            if n in ("get", "index") and len(x[2]) > 1 and strip_load(x[2][1])[0] == "const":
-                return strip_load(x[2][1])[1], x[2][0]
-        if x[0] == "elem" and strip_load(x[2])[0] == "const" and mentions(x[1], lambda y: y[0] == "call" and y[1].split("::")[-1] == "collect"):
-            return strip_load(x[2])[1], x[1]
-    return None, None
+            if n == "first" and mentions(x[2][0], is_arg_vector):
+                out.add(0)
+            elif n in ("get", "index") and len(x[2]) > 1 and strip_load(x[2][1])[0] == "const" and mentions(x[2][0], is_arg_vector):
+                out.add(strip_load(x[2][1])[1])
+        if x[0] == "elem" and strip_load(x[2])[0] == "const" and mentions(x[1], is_arg_vector):
+            out.add(strip_load(x[2])[1])
+    return out
+
+
+def is_arg_vector(x):
+    """the list of a command's arguments: pieces of capture 2 of the command, cut at ','"""
+    return x[0] == "iter" and x[2] == "split" and len(x) > 3 and strip_load(x[3][0]) == ("const", ord(",")) and \
+        mentions(x[1], lambda y: y[0] == "call" and y[1].split("::")[-1] == "captures")
+
+
+def conversion_ok(kind, e):
+    if kind == "id":
+        num = mentions(e, lambda x: x[0] == "call" and ("usize" in x[1] or "str>::parse" in x[1]) and x[1].split("::")[-1] in ("from_str", "parse", "from_str_radix"))
+        var = mentions(e, lambda x: x[0] == "call" and x[1].split("::")[-1] in ("or_insert_with", "next_id", "or_insert", "get", "entry"))
+        return num or var
+    if kind == "label":
+        return mentions(e, lambda x: x[0] == "call" and "Label" in x[1] and x[1].split("::")[-1] in ("from_str", "parse")) or \
+            mentions(e, lambda x: x[0] == "call" and x[1].endswith("str>::parse"))
+    if kind == "data":
+        return mentions(e, lambda x: x[0] == "call" and "Hex" in x[1] and x[1].split("::")[-1] in ("from_vec", "from_slice", "from_str"))
+    return False
 
 
 def sc1(F, R):
-    root, bodies = script_bodies(F)
+    c = sctx(F)
+    root = c.root
     if root is None:
         R.missing("SC1", "Script::deploy_to")
         return
-    for b in bodies:
-        R.analysed(b, sum(1 for _ in b.sites()))
-    calls = []
-    for b in bodies:
-        for e in Collector(F, depth=0).collect(b):
-            if e.kind == "call" and e.callee.get("local") and e.body is b:
-                cb = F.bodies.get(e.path)
-                if cb is not None and cb.self_adt == "Sodg" and cb.arg_count >= 1 and cb.locals[1]["ty"].startswith("&mut"):
-                    calls.append(e)
+    R.analysed(root, len(c.raw))
     seen = {}
+    calls = [e for e in c.muts if e.name != "next_id"]
     for e in calls:
-        if e.name == "next_id":
-            continue   # SC2
-        names = [f for f in e.facts if f[0] == "cmp" and f[1] == "==" and strip_load(f[3])[0] == "str"]
+        names = [f for f in e.facts if f[0] == "cmp" and f[1] == "==" and strip_load(f[3])[0] == "str" and
+                 mentions(f[2], lambda x: x[0] == "call" and x[1].split("::")[-1] == "captures")]
         cmd = strip_load(names[0][3])[1] if len(names) == 1 else None
-        detail = {"call": e.name, "guards": [show(f, e.body) for f in e.facts if f[0] == "cmp"]}
+        detail = {"call": e.name, "guards": [show(f, e.body)[:200] for f in e.facts if f[0] == "cmp"]}
         if cmd not in TABLE:
-            R.bad("SC1", "SC1/Script::deploy_one/%s-not-dispatched-by-name" % e.name, e.where(),
-                  "the graph call `%s` is not selected by the command name being equal to one of ADD/BIND/PUT" % e.name, detail)
+            R.bad("SC1", "SC1/Script::deploy_to/%s-not-dispatched-by-name" % e.name, e.where(),
+                  "the graph call `%s` is not selected by the command name (capture 1 of the command text) being equal to one of "
+                  "ADD/BIND/PUT" % e.name, detail)
             continue
         want, argspec = TABLE[cmd]
         if e.name != want:
-            R.bad("SC1", "SC1/Script::deploy_one/%s-runs-%s" % (cmd, e.name), e.where(),
+            R.bad("SC1", "SC1/Script::deploy_to/%s-runs-%s" % (cmd, e.name), e.where(),
                   "the command %s calls %s() instead of %s()" % (cmd, e.name, want), detail)
             continue
-        # command name is capture 1 of the LINE match of the command text
-        subj = strip_load(names[0][2])
-        if not mentions(subj, lambda x: x[0] == "call" and x[1].split("::")[-1] == "captures"):
-            R.bad("SC1", "SC1/Script::deploy_one/name-not-from-command", e.where(), "the dispatched name is not taken from the command text", detail)
-            continue
-        gparam = [i for i in range(1, e.body.arg_count + 1) if e.body.locals[i]["ty"].startswith("&mut Sodg")]
+        gparam = [i for i in range(1, root.arg_count + 1) if root.locals[i]["ty"].startswith("&mut Sodg")]
         if not gparam or strip_load(e.args[0]) != ("param", gparam[0]):
-            R.bad("SC1", "SC1/Script::deploy_one/%s-on-other-graph" % cmd, e.where(), "the command is applied to a graph other than the one given", detail)
+            R.bad("SC1", "SC1/Script::deploy_to/%s-on-other-graph" % cmd, e.where(), "the command is applied to a graph other than the one given", detail)
             continue
         ok = len(e.args) - 1 == len(argspec)
-        vecs = set()
-        for (fn, pos), a in zip(argspec, e.args[1:]):
-            conv = [x for x in walk(a) if x[0] == "call" and x[1].split("::")[-1] == fn]
-            p, vec = positional(a)
-            if not conv or p != pos:
+        for (kind, pos), a in zip(argspec, e.args[1:]):
+            ps = positions(a)
+            if ps != {pos} or not conversion_ok(kind, a):
                 ok = False
-                R.bad("SC1", "SC1/Script::deploy_one/%s-argument-%d" % (cmd, pos), e.where(),
-                      "argument %d of %s is not %s(text argument no.%d) (found position %s): the command's arguments are swapped, "
-                      "reused or converted differently" % (pos, cmd, fn, pos, p), {"value": show(a, e.body)[:300]})
-            if vec is not None:
-                vecs.add(strip_sites(strip_load(vec)))
-        if ok and len(vecs) == 1:
+                R.bad("SC1", "SC1/Script::deploy_to/%s-argument-%d" % (cmd, pos), e.where(),
+                      "argument %d of %s is not the %s conversion of text argument no.%d (taken from position(s) %s): the command's "
+                      "arguments are swapped, reused or converted differently" % (pos, cmd, kind, pos, sorted(ps)), {"value": show(a, e.body)[:300]})
+        if ok:
             seen[cmd] = True
-            R.ok("SC1", e.where(), "%s(…) → g.%s(%s)" % (cmd, want, ", ".join("%s(arg%d)" % (f, p) for f, p in argspec)), detail)
-        elif ok:
-            R.bad("SC1", "SC1/Script::deploy_one/%s-argument-vectors" % cmd, e.where(), "arguments are taken from different argument lists")
+            R.ok("SC1", e.where(), "%s(…) → g.%s(%s)" % (cmd, want, ", ".join("%s(arg%d)" % (k, p) for k, p in argspec)), detail)
     for cmd in TABLE:
         if cmd not in seen and not any(v["key"].startswith("SC1/") and cmd in v["key"] for v in R.violations):
-            R.bad("SC1", "SC1/Script::deploy_one/%s-missing" % cmd, root.where(), "the command %s is not dispatched to a graph call" % cmd)
-    R.floor("SC1", "dispatched graph calls", len([e for e in calls if e.name != "next_id"]), 3, root.where())
+            R.bad("SC1", "SC1/Script::deploy_to/%s-missing" % cmd, root.where(), "the command %s is not dispatched to a graph call" % cmd)
+    R.floor("SC1", "dispatched graph calls", len(calls), 3, root.where())
     # no other graph mutation
     evs, raw, col = state_events(F, root, stop_names=G.api_names(F))
     for e in evs:
         R.bad("SC1", "SC1/%s/direct-%s" % (e.fn_key(), e.kind), e.where(), "deploying a script changes graph state directly (%s), not through add/bind/put" % e.kind)
 
 
+def command_list(c):
+    """(expression of the command list the main loop walks, loop item, `next` event)"""
+    b = c.root
+    best = None
+    for e in c.raw:
+        if e.kind == "call" and e.callee.get("decl") == "std::iter::Iterator::next" and e.body is b and e.args:
+            it = strip_load(e.args[0])
+            src = iter_source(it)
+            if src is None:
+                continue
+            # the loop whose body contains the graph calls
+            inside = [m for m in c.muts if any(f[0] == "in" and f[2] == frozenset(["Some"]) and strip_load(f[1])[0] == "discr" and
+                                                 strip_sites(strip_load(strip_load(f[1])[1])) == strip_sites(("next", it, e.site[0])) for f in m.facts)]
+            if inside and (best is None or len(inside) > best[3]):
+                best = (strip_load(src), it, e, len(inside))
+    return best
+
+
+def split_chain_ok(F, chain, body):
+    """chain = text.split(';') through order-preserving adaptors, comments stripped from the whole text first"""
+    chain = strip_load(chain)
+    ads = [a for a, _ in iter_adaptors(chain)]
+    it = chain
+    while it[0] == "adapt":
+        it = strip_load(it[2])
+    if not (it[0] == "iter" and it[2] == "split" and len(it) > 3):
+        return "the command list is not made of the pieces of the script text"
+    if strip_load(it[3][0]) != ("const", ord(";")):
+        return "the script text is not cut at ';'"
+    if not mentions(it[1], lambda x: x[0] == "field" and x[2] == "Script::txt"):
+        return "the text that is cut is not the script's own text"
+    stripped_first = mentions(it[1], lambda x: x[0] == "call" and x[1].split("::")[-1] in ("replace_all", "replace", "replacen"))
+    strips_later = False
+    for an, ex in iter_adaptors(chain):
+        for x in ex:
+            cbx = F.bodies.get(strip_load(x)[1]) if strip_load(x)[0] == "closure" else None
+            if cbx is not None and any(t["callee"].get("name") in ("replace_all", "replace") for _, t in cbx.calls()):
+                strips_later = True
+    if strips_later and not stripped_first:
+        return "split-before-comment-strip"
+    bad = [a for a in ads if a not in ("map", "filter", "enumerate", "inspect", "peekable")]
+    if bad:
+        return "order:%s" % bad
+    return None
+
+
 def sc3(F, R):
-    root, bodies = script_bodies(F)
-    if root is None:
+    c = sctx(F)
+    b = c.root
+    if b is None:
         R.missing("SC3", "Script::deploy_to")
         return
-    b = root
-    calls = list(b.calls())
-    cmds = [(s, t) for s, t in calls if t["callee"].get("name") == "commands" and t["callee"].get("local")]
-    ones = [(s, t) for s, t in calls if t["callee"].get("name") == "deploy_one" and t["callee"].get("local")]
-    if len(cmds) != 1 or len(ones) != 1:
-        R.bad("SC3", "SC3/Script::deploy_to/shape", b.where(), "cannot establish SC3: deploy_to does not have one commands() and one deploy_one() call")
+    cl = command_list(c)
+    if cl is None:
+        R.bad("SC3", "SC3/Script::deploy_to/shape", b.where(), "cannot establish SC3: no loop over the command list containing the graph calls found")
         return
-    osite, ot = ones[0]
-    oargs = [strip_load(deref_addr(b, a)) for a in b.call_args(ot, osite)]
-    item = [a for a in oargs if a[0] == "item"]
-    okitem = False
-    if item:
-        it = item[0][1]
-        src = iter_source(it)
-        okitem = src is not None and strip_load(src)[0] == "call" and strip_load(src)[1].endswith("::commands") and not iter_adaptors(it)
-    if not okitem:
-        R.bad("SC3", "SC3/Script::deploy_to/commands-not-in-order", b.where(osite),
-              "deploy_one is not applied to each command of commands() in sequence (reordered, skipped or filtered)", {"args": [show(a, b) for a in oargs]})
+    src, it, nxt, _ = cl
+    if [a for a, _ in iter_adaptors(it) if a not in ("enumerate", "inspect", "peekable")]:
+        R.bad("SC3", "SC3/Script::deploy_to/commands-not-in-order", nxt.where(),
+              "the commands are not deployed one by one in the order of the list (adaptors %s)" % [a for a, _ in iter_adaptors(it)])
+    # where does the list come from?
+    why = None
+    if src[0] == "call" and src[1].split("::")[-1] in ("collect", "collect_vec", "from_iter"):
+        why = split_chain_ok(F, src[2][-1], b)
     else:
-        R.ok("SC3", b.where(osite), "every command of commands() is deployed, in sequence")
-    # the returned count
+        # a vector filled by pushes in a loop over the split pieces
+        pushes = [e for e in c.raw if e.kind == "call" and e.name == "push" and e.args and strip_sites(strip_load(e.args[0])) == strip_sites(src)]
+        if not pushes:
+            why = "the command list is neither a collected split nor a vector filled from one"
+        for p in pushes:
+            items = [x for x in walk(p.args[1]) if x[0] == "item"]
+            chains = [x[1] for x in items if iter_source(x[1]) is not None]
+            if not chains:
+                why = "a command pushed onto the list is not a piece of the split text"
+                continue
+            w2 = split_chain_ok(F, chains[0], b)
+            why = why or w2
+            extra = [f for f in p.facts if not (f[0] == "in" and strip_load(f[1])[0] == "discr") and "Level" not in repr(f)
+                     and not (f[0] == "bool" and strip_load(f[1])[0] == "call" and strip_load(f[1])[1].split("::")[-1] == "is_empty")]
+            if extra:
+                why = why or "a piece is skipped under a condition other than being empty"
+    if why == "split-before-comment-strip":
+        R.bad("SC3", "SC3/Script::commands/split-before-comment-strip", b.where(),
+              "the text is cut at ';' before comments are removed: a ';' inside a comment splits the comment, and the rest of it is "
+              "taken for a command (a well-formed script then fails half-way)")
+    elif why and why.startswith("order:"):
+        R.bad("SC3", "SC3/Script::commands/order", b.where(), "the command list passes through %s: textual order or the set of commands is not preserved" % why[6:])
+    elif why:
+        R.bad("SC3", "SC3/Script::commands/split", b.where(), why)
+    else:
+        R.ok("SC3", b.where(), "commands = text (comments stripped first) cut at ';', order kept, deployed one by one")
+    # ---- the returned count
     rets = []
     for d in b.defs().get(0, []):
         site = (d[0], d[1])
         e = b.expr_rvalue(d[3], site) if d[2] == "assign" else b.expr_call(d[3], site)
         if e[0] == "agg" and e[2] == "Ok":
-            rets.append((site, d[3]))
+            rets.append((site, d[3], e))
     if len(rets) != 1:
         R.bad("SC3", "SC3/Script::deploy_to/ok-results", b.where(), "cannot establish SC3: %d Ok results" % len(rets))
         return
-    rsite, rv = rets[0]
+    rsite, rv, rexpr = rets[0]
+    mut_sites = [m for m in c.muts if m.name != "next_id" and m.body is b]
+    header = nxt.site
+    # every pass through the loop body applies a command (or leaves the function)
+    def reach_without(frm, to, avoid):
+        seen = set()
+        st = [s for s, _ in b.succ[frm]]
+        while st:
+            x = st.pop()
+            if x in seen or x in avoid:
+                continue
+            seen.add(x)
+            if x == to:
+                return True
+            st.extend(s for s, _ in b.succ[x])
+        return False
+    val = strip_load(dict(rexpr[3])["0"])
+    if val[0] == "call" and val[1].split("::")[-1] == "len" and strip_sites(strip_load(val[2][0])) == strip_sites(src):
+        # Ok(list.len()): equals the number applied iff no pass through the loop skips the command without failing
+        skip = reach_without(header[0], header[0], {m.site[0] for m in mut_sites})
+        if skip:
+            R.bad("SC3", "SC3/Script::deploy_to/count-is-list-length-but-commands-skipped", b.where(rsite),
+                  "the result is the length of the command list, but a command can be passed over without being applied")
+        else:
+            R.ok("SC3", b.where(rsite), "Ok(number of commands): every pass of the loop applies its command or returns Err")
+        return
     op = rv["ops"][0]
     cnt_local = None
     if op.get("k") in ("copy", "move") and not op["place"]["proj"]:
         cnt_local = op["place"]["local"]
-        # follow a temp copy
         ds = b.defs().get(cnt_local, [])
         if len(ds) == 1 and ds[0][2] == "assign" and ds[0][3]["k"] == "use" and ds[0][3]["op"].get("k") in ("copy", "move") and not ds[0][3]["op"]["place"]["proj"]:
             cnt_local = ds[0][3]["op"]["place"]["local"]
     if cnt_local is None:
-        R.bad("SC3", "SC3/Script::deploy_to/count-not-a-counter", b.where(rsite), "cannot establish SC3: the returned value is not a local counter")
+        R.bad("SC3", "SC3/Script::deploy_to/count-not-a-counter", b.where(rsite), "cannot establish SC3: the returned value is neither a local counter nor the list's length",
+              {"value": show(val, b)[:200]})
         return
     incs, inits, other = [], [], []
     for d in b.defs().get(cnt_local, []):
         site = (d[0], d[1])
         e = b.expr_rvalue(d[3], site) if d[2] == "assign" else b.expr_call(d[3], site)
-        c = strip_load(e)
-        if c == ("const", 0):
+        cc = strip_load(e)
+        if cc == ("const", 0):
             inits.append(site)
-        elif c[0] == "binop" and c[1] == "Add" and strip_load(c[3]) == ("const", 1):
+        elif cc[0] == "binop" and cc[1] == "Add" and strip_load(cc[3]) == ("const", 1):
             incs.append(site)
         else:
             other.append((site, e))
     if other or len(inits) != 1:
         R.bad("SC3", "SC3/Script::deploy_to/count-updates", b.where(), "the returned count is not a counter starting at 0 and only incremented by 1",
-              {"other": [show(e, b) for _, e in other]})
+              {"other": [show(e, b)[:200] for _, e in other]})
         return
     if len(incs) != 1:
-        R.bad("SC3", "SC3/Script::deploy_to/count-increments", b.where(), "the count is incremented %d times per pass" % len(incs))
+        R.bad("SC3", "SC3/Script::deploy_to/count-increments", b.where(), "the count is incremented at %d places" % len(incs))
         return
     isite = incs[0]
-    facts = b.facts_at(isite)
-    succ = any(f[0] == "in" and f[2] == frozenset(["Continue"]) and mentions(f[1], lambda x: x[0] == "call" and x[1].endswith("::deploy_one")) for f in facts)
-    extra = [f for f in facts if not (f[0] == "in" and (f[2] == frozenset(["Continue"]) or f[2] == frozenset(["Some"]))) and "Level" not in repr(f)
-             and not (f[0] == "bool" and strip_load(f[1])[0] == "ovf")]
-    if not succ:
-        R.bad("SC3", "SC3/Script::deploy_to/count-not-tied-to-success", b.where(isite),
-              "the count is not incremented exactly on the success edge of deploy_one: it does not equal the number of commands applied")
-    elif extra:
-        R.bad("SC3", "SC3/Script::deploy_to/count-conditional", b.where(isite), "the count is incremented only under an extra condition",
-              {"conditions": [show(f, b) for f in extra]})
-    elif not b.dominates(osite, isite):
-        R.bad("SC3", "SC3/Script::deploy_to/count-before-deploy", b.where(isite), "the count is incremented before the command is deployed")
-    else:
-        R.ok("SC3", b.where(isite), "count += 1 exactly once per successfully deployed command; Ok(count)")
-    # commands(): order-preserving split
-    cb = F.fn("Script", "commands")
-    if cb is None:
-        R.missing("SC3", "Script::commands")
+    # the `?` whose success edge leads to the increment, and the definitions of the result it tests
+    okdefs, errdefs, via_call = result_defs_before(b, isite)
+    mut_blocks = {m.site[0] for m in mut_sites}
+    if via_call is not None:
+        # the per-command function is still a call (public or recursive): its success is the success of the command
+        R.ok("SC3", b.where(isite), "count += 1 on the success edge of `%s`; Ok(count)" % short_path(via_call))
         return
-    for r in cb.returns:
-        e = strip_load(cb.expr_local(0, (r, cb.term_idx(r))))
-        chain = strip_load(e[2][0]) if e[0] == "call" and e[1].split("::")[-1] == "collect" else None
-        if chain is None:
-            R.bad("SC3", "SC3/Script::commands/result-shape", cb.where(), "cannot establish SC3: commands() is not a collected split", {"value": show(e, cb)[:300]})
-            continue
-        ads = [a for a, _ in iter_adaptors(chain)]
-        it = chain
-        while it[0] == "adapt":
-            it = strip_load(it[2])
-        sep = strip_load(it[3][0]) if it[0] == "iter" and it[2] == "split" and len(it) > 3 else None
-        srcok = it[0] == "iter" and it[2] == "split" and mentions(it[1], lambda x: x[0] == "field" and x[2] == "Script::txt")
-        badads = [a for a in ads if a not in ("map", "filter")]
-        # comments are stripped from the whole text before it is cut at ';' (a comment may contain ';')
-        stripped_first = mentions(it[1], lambda x: x[0] == "call" and x[1].split("::")[-1] in ("replace_all", "replace", "replacen"))
-        strips_later = False
-        for an, ex in iter_adaptors(chain):
-            for x in ex:
-                cbx = F.bodies.get(strip_load(x)[1]) if strip_load(x)[0] == "closure" else None
-                if cbx is not None and any(t["callee"].get("name") in ("replace_all", "replace") for _, t in cbx.calls()):
-                    strips_later = True
-        if not srcok or sep != ("const", ord(";")):
-            R.bad("SC3", "SC3/Script::commands/split", cb.where(), "commands are not the pieces of the script text between ';'", {"chain": show(chain, cb)[:300]})
-        elif strips_later and not stripped_first:
-            R.bad("SC3", "SC3/Script::commands/split-before-comment-strip", cb.where(),
-                  "the text is cut at ';' before comments are removed: a ';' inside a comment splits the comment, and the rest of it is "
-                  "taken for a command (a well-formed script then fails half-way)")
-        elif badads:
-            R.bad("SC3", "SC3/Script::commands/order", cb.where(), "the command list passes through %s: textual order or the set of commands is not preserved" % badads)
+    if not okdefs:
+        # no `?` in front of the increment: fall back to plain reachability
+        not_via = reach_without(header[0], isite[0], mut_blocks)
+        missed = [m for m in mut_sites if not b.postdominates(isite, m.site)]
+    else:
+        not_via = any(reach_without(header[0], d[0], mut_blocks) or d[0] == header[0] for d in okdefs)
+        ok_blocks = {d[0] for d in okdefs}
+        missed = [m for m in mut_sites if any(reach_without(m.site[0], d[0], ok_blocks | {header[0]}) for d in errdefs)
+                  or not any(reach_without(m.site[0], d[0], set()) or d[0] == m.site[0] for d in okdefs)]
+    if not_via:
+        R.bad("SC3", "SC3/Script::deploy_to/count-not-tied-to-success", b.where(isite),
+              "the count can be incremented on a pass of the loop that did not apply a command: it does not equal the number of commands applied")
+    elif missed:
+        R.bad("SC3", "SC3/Script::deploy_to/count-misses-applied-command", missed[0].where(),
+              "a command can be applied without the count being incremented afterwards (`%s`)" % missed[0].name)
+    else:
+        R.ok("SC3", b.where(isite), "count += 1 exactly once after each applied command; Ok(count)")
+
+
+def chase(b, op, site, depth=0):
+    """follow an operand back through moves / context wrappers to (local, its definition sites)"""
+    if op.get("k") not in ("copy", "move") or op["place"]["proj"] or depth > 8:
+        return None
+    local = op["place"]["local"]
+    defs = b.defs().get(local, [])
+    if len(defs) == 1:
+        bb, idx, kind, payload = defs[0]
+        if kind == "assign" and payload["k"] == "use":
+            r = chase(b, payload["op"], (bb, idx), depth + 1)
+            if r is not None:
+                return r
+        if kind == "call":
+            c = payload["callee"]
+            if c.get("name") in ("with_context", "context", "map_err") and payload["args"]:
+                r = chase(b, payload["args"][0], (bb, idx), depth + 1)
+                if r is not None:
+                    return r
+            return ("call", c.get("path"), (bb, idx))
+    return ("local", local, [(d[0], d[1], d[2], d[3]) for d in defs])
+
+
+def result_defs_before(b, isite):
+    """(sites defining Ok, sites defining Err/other, call path) for the result tested by the `?` that guards site `isite`"""
+    best = None
+    for bi in sorted(b.reachable):
+        t = b.blocks[bi]["term"]
+        if t["k"] == "call" and t["callee"].get("decl") == "std::ops::Try::branch" and t["target"] is not None:
+            if b.dominates((bi, b.term_idx(bi)), isite) and (best is None or b.dominates((best, 0), (bi, 0))):
+                best = bi
+    if best is None:
+        return [], [], None
+    t = b.blocks[best]["term"]
+    r = chase(b, t["args"][0], (best, b.term_idx(best)))
+    if r is None:
+        return [], [], None
+    if r[0] == "call":
+        return [], [], r[1]
+    oks, errs = [], []
+    for bb, idx, kind, payload in r[2]:
+        site = (bb, idx)
+        e = b.expr_rvalue(payload, site) if kind == "assign" else b.expr_call(payload, site)
+        e = strip_load(e)
+        arms = list(e[1]) if e[0] == "phi" else [e]
+        if all(strip_load(a)[0] == "agg" and strip_load(a)[2] == "Ok" for a in arms):
+            oks.append(site)
         else:
-            R.ok("SC3", cb.where(), "commands() = text.split(';') through order-preserving adaptors (%s)" % ads)
+            errs.append(site)
+    return oks, errs, None
 
 
 SC_PANICKY = {"unwrap", "expect", "unwrap_unchecked", "index", "index_mut", "panic_fmt", "panic", "unreachable", "assert_failed",
@@ -238,65 +357,77 @@ SC_PANICKY = {"unwrap", "expect", "unwrap_unchecked", "index", "index_mut", "pan
 
 
 def sc4(F, R):
-    root, bodies = script_bodies(F)
+    c = sctx(F)
+    root = c.root
     if root is None:
         R.missing("SC4", "Script::deploy_to")
         return
     n = 0
     audited = 0
-    for b in bodies:
-        # facts at the creation site of this closure (for closures): outer guards
-        outer = frozenset()
-        if b.kind == "Closure":
-            pb = F.bodies.get(b.parent)
-            if pb is not None:
-                for site, kind, s in pb.sites():
-                    if kind == "stmt" and s["k"] == "assign" and s["rv"]["k"] == "aggregate" and s["rv"].get("closure") == b.path:
-                        outer = pb.facts_at(site)
-        for site, t in b.calls():
-            c = t["callee"]
-            nm = c.get("name")
-            if nm not in SC_PANICKY or t.get("exp"):
-                continue
-            if nm in ("index", "index_mut") and c.get("local"):
-                continue
-            if nm == "remove" and c.get("krate") not in ("alloc", "std", "core"):
-                continue
-            n += 1
-            args = [strip_load(deref_addr(b, a)) for a in b.call_args(t, site)]
-            facts = b.facts_at(site) | outer
-            why = None
-            # E1: Regex::new(<literal>).unwrap()
-            if nm in ("unwrap", "expect") and args and args[0][0] == "call" and args[0][1].endswith("Regex::new") and strip_load(args[0][2][0])[0] == "str":
-                why = "Regex::new on the literal %r" % strip_load(args[0][2][0])[1]
-            # E2: cap[k] for k in {1, 2} of the LINE match, whose groups always participate
-            elif nm == "index" and "Captures" in c.get("path", "") and len(args) == 2 and args[1][0] == "const":
-                lit = regex_literal_of(F, args[0])
-                k = args[1][1]
-                if lit is not None and k <= unconditional_groups(lit):
-                    why = "capture %d of %r always participates in a match" % (k, lit)
-            # E3: hex pair parsing dominated by the hex-pairs regex matching
-            elif (nm in ("unwrap", "expect") and args and args[0][0] == "call" and args[0][1].endswith("from_str_radix")) or \
-                    (nm == "index" and "for str" in c.get("path", "")):
-                m = [f for f in facts if f[0] == "bool" and f[2] is True and strip_load(f[1])[0] == "call" and strip_load(f[1])[1].endswith("::is_match")]
-                if m:
-                    lit = regex_literal_of(F, strip_load(m[0][1]))
-                    if lit is not None and "[0-9A-Fa-f]{2}" in lit and lit.startswith("^") and lit.endswith("$"):
-                        why = "dominated by %r matching the same text" % lit
-            if why:
-                audited += 1
-                R.ok("SC4", b.where(site), "audited exception: %s (%s)" % (nm, why))
-            else:
-                R.bad("SC4", "SC4/%s/%s" % (fn_key(b), nm), b.where(site),
-                      "a panicking operation (`%s`) is applied to script-derived data outside the audited exceptions: a malformed "
-                      "command panics instead of yielding Err" % c.get("path"),
-                      {"args": [show(a, b)[:200] for a in args], "guards": [show(f, b)[:200] for f in facts if "Level" not in repr(f)]})
-        # place-level indexing with a bounds assert on non-constant indices
+    events = list(c.raw)
+    # initialisers of the statics used (LazyLock closures): they run on first use
+    statics = set()
+    for e in c.raw:
+        if e.kind == "call":
+            for a in e.args:
+                for x in walk(a):
+                    if x[0] == "static":
+                        statics.add(x[1])
+    for b in F.all_bodies():
+        if b.kind == "Closure" and any(b.path.startswith(s + "::") for s in statics):
+            events += Collector(F).collect(b)
+    for e in events:
+        if e.kind != "call":
+            continue
+        cc = e.callee
+        nm = e.name
+        if nm not in SC_PANICKY or e.exp:
+            continue
+        if nm in ("index", "index_mut") and cc.get("local"):
+            continue
+        if nm == "remove" and e.krate not in ("alloc", "std", "core"):
+            continue
+        n += 1
+        args = [strip_load(a) for a in e.args]
+        why = None
+        # E1: Regex::new(<literal>).unwrap()
+        if nm in ("unwrap", "expect") and args and args[0][0] == "call" and args[0][1].endswith("Regex::new") and strip_load(args[0][2][0])[0] == "str":
+            why = "Regex::new on the literal %r" % strip_load(args[0][2][0])[1]
+        # E2: cap[k] of a match whose first k groups always participate
+        elif nm == "index" and "Captures" in e.path and len(args) == 2 and args[1][0] == "const":
+            lit = regex_literal_of(F, args[0])
+            k = args[1][1]
+            if lit is not None and k <= unconditional_groups(lit):
+                why = "capture %d of %r always participates in a match" % (k, lit)
+        # E3: hex pair parsing dominated by the hex-pairs regex matching
+        elif (nm in ("unwrap", "expect") and args and args[0][0] == "call" and args[0][1].endswith("from_str_radix")) or \
+                (nm == "index" and "for str" in e.path):
+            m = [f for f in e.facts if f[0] == "bool" and f[2] is True and strip_load(f[1])[0] == "call" and strip_load(f[1])[1].endswith("::is_match")]
+            if m:
+                lit = regex_literal_of(F, strip_load(m[0][1]))
+                if lit is not None and "[0-9A-Fa-f]{2}" in lit and lit.startswith("^") and lit.endswith("$"):
+                    why = "dominated by %r matching the same text" % lit
+            # E4: text cut right after its own first character
+            if why is None and nm == "index" and len(args) == 2 and args[1][0] == "agg" and args[1][1] == "RangeFrom":
+                st = strip_load(dict(args[1][3])["start"])
+                if st[0] == "call" and st[1].split("::")[-1] == "len_utf8" and \
+                        mentions(st[2][0], lambda x: x[0] == "iter" and x[2] == "chars" and strip_sites(strip_load(x[1])) == strip_sites(args[0])):
+                    why = "text[len_utf8(first char of the same text)..] is on a character boundary within the text"
+        if why:
+            audited += 1
+            R.ok("SC4", e.where(), "audited exception: %s (%s)" % (nm, why))
+        else:
+            R.bad("SC4", "SC4/Script::deploy_to/%s" % nm, e.where(),
+                  "a panicking operation (`%s`) is applied to script-derived data outside the audited exceptions: a malformed "
+                  "command panics instead of yielding Err" % e.path,
+                  {"args": [show(a, e.body)[:200] for a in args], "guards": [show(f, e.body)[:200] for f in e.facts if "Level" not in repr(f)][:8]})
+    # place-level indexing with a bounds assert
+    for b in [root] + [F.bodies[p] for p in {e.body.path for e in c.raw} if p in F.bodies and F.bodies[p] is not root]:
         for bi in sorted(b.reachable):
             t = b.blocks[bi]["term"]
             if t["k"] == "assert" and t["kind"] == "bounds" and not t.get("exp"):
                 n += 1
-                R.bad("SC4", "SC4/%s/slice-index" % fn_key(b), b.where((bi, 0)), "a vector/slice is indexed with `[i]` on script-derived data (panics when out of range)")
+                R.bad("SC4", "SC4/Script::deploy_to/slice-index", b.where((bi, 0)), "a vector/slice is indexed with `[i]` on script-derived data (panics when out of range)")
     R.floor("SC4", "panicking operations examined in the script closure", n, 3, root.where())
     R.note("SC4: %d panicking operations, %d matched audited exceptions" % (n, audited))
 
@@ -321,7 +452,6 @@ def unconditional_groups(pattern):
     depth = 0
     n = 0
     i = 0
-    ok = True
     opened = []
     while i < len(pattern):
         ch = pattern[i]
